@@ -557,26 +557,34 @@ def _local_sources(ctx: Ctx, frame: FuncInfo, fenv, name: str) -> Set[str]:
         if g:
             exprs += g
     out: Set[str] = set()
+    for v in exprs:
+        out |= expr_sources(ctx, frame, fenv, v)
+    return out
+
+
+def expr_sources(ctx: Ctx, fr: FuncInfo, env, v: ast.AST, depth: int = 0) -> Set[str]:
+    """Registry paths an expression draws its content from: the attribute paths it mentions, what the helpers spliced in
+    at its calls return, and what flows into the local collections it names."""
     from ..cfg import bind_args
 
-    def collect(fr: FuncInfo, env, v: ast.AST, depth: int = 0) -> None:
-        for x in ast.walk(v):
-            if isinstance(x, ast.Attribute):
-                p = ctx.eff.paths(fr).of(x)
-                if p is not None:
-                    out.add(ctx.eff.rebase(p, fr, env))
-            elif isinstance(x, ast.Call) and id(x) in ctx.an.spliced_at and depth < 4:
-                # what a spliced helper returns
-                t = ctx.an.spliced_at[id(x)]
-                sub = bind_args(x, t, fr, env)
-                for r in ctx.an.scope(t)._own_nodes():
-                    if isinstance(r, ast.Return) and r.value is not None:
-                        collect(t, sub, r.value, depth + 1)
-                        if isinstance(r.value, ast.Name) and r.value.id in ctx.an.scope(t).defs:
-                            out.update(_local_sources(ctx, t, sub, r.value.id))
-
-    for v in exprs:
-        collect(frame, fenv, v)
+    out: Set[str] = set()
+    sc = ctx.an.scope(fr)
+    for x in ast.walk(v):
+        if isinstance(x, ast.Attribute):
+            p = ctx.eff.paths(fr).of(x)
+            if p is not None:
+                out.add(ctx.eff.rebase(p, fr, env))
+        elif isinstance(x, ast.Call) and id(x) in ctx.an.spliced_at and depth < 4:
+            # what a spliced helper returns
+            t = ctx.an.spliced_at[id(x)]
+            sub = bind_args(x, t, fr, env)
+            for r in ctx.an.scope(t)._own_nodes():
+                if isinstance(r, ast.Return) and r.value is not None:
+                    out |= expr_sources(ctx, t, sub, r.value, depth + 1)
+                    if isinstance(r.value, ast.Name) and r.value.id in ctx.an.scope(t).defs:
+                        out.update(_local_sources(ctx, t, sub, r.value.id))
+        elif isinstance(x, ast.Name) and depth < 4 and x is not v and x.id in sc.defs and x.id not in sc.params:
+            out.update(_local_sources(ctx, fr, env, x.id))
     return out
 
 
